@@ -17,6 +17,7 @@ import (
 	"github.com/MixinNetwork/mixin/common"
 	"github.com/MixinNetwork/mixin/config"
 	"github.com/MixinNetwork/mixin/crypto"
+	"github.com/MixinNetwork/mixin/kernel"
 	"github.com/MixinNetwork/mixin/storage"
 	"verifharness/vh"
 )
@@ -35,6 +36,15 @@ type Case struct {
 	Snaps  []Snap  `json:"snaps"`
 	Perms  [][]int `json:"perms"` // orders the set is supplied in
 	Model  bool    `json:"model"`
+	Stages []Stage `json:"stages,omitempty"` // kind "live": successive contents of ONE CacheRound object
+}
+
+// Stage installs Set as the content of the long-lived round object, by How:
+// assign (new slice), inplace (overwrite elements of the same slice), append
+// (validateSnapshot(add) of the last element), removeadd (drop the first, append the last).
+type Stage struct {
+	How string `json:"how"`
+	Set []Snap `json:"set"`
 }
 
 const gap = config.SnapshotRoundGap
@@ -135,7 +145,140 @@ func same(a, b result) bool {
 	return a.start == b.start && a.end == b.end && a.hash == b.hash
 }
 
+func mkSnap(node crypto.Hash, number uint64, s Snap) *common.Snapshot {
+	h := h32(s.Hash)
+	return &common.Snapshot{Version: s.Version, NodeId: node, RoundNumber: number, Timestamp: s.Ts, Hash: h,
+		Transactions: []crypto.Hash{crypto.Blake3Hash(h[:])}}
+}
+
+func coqSnaps(number uint64, set []Snap) (string, string) {
+	lc := make([]string, len(set))
+	lt := make([]string, len(set))
+	for i, s := range set {
+		hh := h32(s.Hash)
+		lc[i] = vh.App("mk_snap", num32(hh[:]), vh.NU(s.Ts), vh.NU(uint64(s.Version)), vh.NU(number), "(@nil N)")
+		lt[i] = vh.App("mk_tsnap", lc[i], vh.NU(s.Topo))
+	}
+	return vh.List(lc, "snap"), vh.List(lt, "tsnap")
+}
+
+// One long-lived kernel.CacheRound whose content changes between asFinal calls:
+// the hash must always be the function of the CURRENT set (also through Copy()).
+func runLive(c *vh.Ctx, cs Case) {
+	node := h32(cs.Node)
+	round := kernel.VerifC19NewCacheRound(node, cs.Number)
+	for si, st := range cs.Stages {
+		n := len(st.Set)
+		switch {
+		case st.How == "inplace" && len(round.Snapshots) == n:
+			for i := range st.Set {
+				round.Snapshots[i] = mkSnap(node, cs.Number, st.Set[i])
+			}
+		case st.How == "append" && len(round.Snapshots) == n-1:
+			s := mkSnap(node, cs.Number, st.Set[n-1])
+			var err error
+			pan, _ := vh.Catch(func() { err = round.VerifC19Validate(s, true) })
+			if pan || err != nil {
+				round.Snapshots = append(round.Snapshots, s)
+			}
+		case st.How == "removeadd" && len(round.Snapshots) == n && n > 0:
+			round.Snapshots = append(round.Snapshots[1:], mkSnap(node, cs.Number, st.Set[n-1]))
+		default:
+			l := make([]*common.Snapshot, n)
+			for i := range st.Set {
+				l[i] = mkSnap(node, cs.Number, st.Set[i])
+			}
+			round.Snapshots = l
+		}
+		// what the object holds now (the stages only describe how it got there)
+		cur := make([]Snap, len(round.Snapshots))
+		for i, s := range round.Snapshots {
+			cur[i] = Snap{Hash: hex.EncodeToString(s.Hash[:]), Ts: s.Timestamp, Version: s.Version, Topo: uint64(i)}
+		}
+		ref, tbl := reference(node, cs.Number, cur)
+		id := make([]int, len(cur))
+		for i := range id {
+			id[i] = i
+		}
+		lcTerm, ltTerm := coqSnaps(cs.Number, cur)
+		get := func(r *kernel.CacheRound) result {
+			var out result
+			var fr *kernel.FinalRound
+			out.pan, _ = vh.Catch(func() { fr = r.VerifC19AsFinal() })
+			if !out.pan && fr != nil {
+				out.start, out.end, out.hash = fr.Start, fr.End, fr.Hash
+			}
+			return out
+		}
+		cp := round.Copy()
+		rLive := get(round)
+		rCopy := get(cp)
+		rFresh := runCommon(node, cs.Number, cur, id, false)
+		rStore := runStorage(node, cs.Number, cur, id)
+		if len(cur) > 0 {
+			if !same(rLive, ref) || !same(rLive, rFresh) {
+				c.Fail("stale-live-round", fmt.Sprintf("asFinal on a long-lived round object is not the hash of its current snapshot set (stage %d %s)", si, st.How), cs)
+			}
+			if !same(rCopy, ref) {
+				c.Fail("stale-copied-round", fmt.Sprintf("asFinal on a Copy() of the round object is not the hash of its current snapshot set (stage %d %s)", si, st.How), cs)
+			}
+			if !same(rStore, rFresh) {
+				c.Fail("implementations-disagree", "storage.computeRoundHash and common.ComputeRoundHash disagree", cs)
+			}
+			term := vh.App("CHash", num32(node[:]), vh.NU(cs.Number), lcTerm, ltTerm, vh.List(tbl, "(hin * N)"), rLive.coq(), rStore.coq())
+			c.Case("live-"+st.How, fmt.Sprintf("%s|%d|%d|%v", cs.Node, cs.Number, si, cs.Stages), !ref.pan && len(cur) >= 2, cs, term)
+			term2 := vh.App("CHash", num32(node[:]), vh.NU(cs.Number), lcTerm, ltTerm, vh.List(tbl, "(hin * N)"), rCopy.coq(), rStore.coq())
+			c.Case("live-copy", fmt.Sprintf("%s|%d|%d|copy|%v", cs.Node, cs.Number, si, cs.Stages), !ref.pan && len(cur) >= 2, cs, term2)
+		}
+	}
+}
+
+func genLive(c *vh.Ctx) Case {
+	r := c.Rng
+	cs := Case{Kind: "live", Node: hex.EncodeToString(r.Bytes(32)), Number: uint64(r.Intn(9))}
+	base := 1700000000000000000 + r.U64()%1000000000000000
+	ctr := uint64(0)
+	fresh := func() Snap {
+		ctr++
+		s := Snap{Ts: base + ctr*1000 + r.U64()%1000, Version: 2, Hash: hex.EncodeToString(r.Bytes(32))}
+		if r.Chance(1, 2) {
+			s.Hash = small(1 + r.U64()%1000000)
+		}
+		return s
+	}
+	n := r.Range(1, 7)
+	set := make([]Snap, n)
+	for i := range set {
+		set[i] = fresh()
+	}
+	cs.Stages = append(cs.Stages, Stage{How: "assign", Set: append([]Snap{}, set...)})
+	for k := r.Range(2, 6); k > 0; k-- {
+		how := []string{"assign", "inplace", "inplace1", "append", "removeadd"}[r.Intn(5)]
+		next := append([]Snap{}, set...)
+		switch how {
+		case "assign", "inplace": // a different set of the same size
+			for i := range next {
+				next[i] = fresh()
+			}
+		case "inplace1": // one element replaced
+			next[r.Intn(len(next))] = fresh()
+			how = "inplace"
+		case "append":
+			next = append(next, fresh())
+		case "removeadd":
+			next = append(next[1:], fresh())
+		}
+		set = next
+		cs.Stages = append(cs.Stages, Stage{How: how, Set: append([]Snap{}, set...)})
+	}
+	return cs
+}
+
 func run(c *vh.Ctx, cs Case) {
+	if cs.Kind == "live" {
+		runLive(c, cs)
+		return
+	}
 	node := h32(cs.Node)
 	ref, tbl := reference(node, cs.Number, cs.Snaps)
 	var first, firstS result
@@ -275,12 +418,33 @@ func corpus() []Case {
 	}
 }
 
+func liveCorpus() []Case {
+	n := small(9)
+	b := uint64(1700000000000000000)
+	a := func(h, dt uint64) Snap { return Snap{Hash: small(h), Ts: b + dt, Version: 2} }
+	return []Case{
+		// same size, different set; one element replaced in place; append; remove+add
+		{Kind: "live", Node: n, Number: 4, Stages: []Stage{
+			{How: "assign", Set: []Snap{a(1, 10), a(2, 20)}},
+			{How: "assign", Set: []Snap{a(3, 30), a(4, 40)}},
+			{How: "inplace", Set: []Snap{a(3, 30), a(5, 50)}},
+			{How: "append", Set: []Snap{a(3, 30), a(5, 50), a(6, 60)}},
+			{How: "removeadd", Set: []Snap{a(5, 50), a(6, 60), a(7, 70)}},
+			{How: "inplace", Set: []Snap{a(8, 80), a(9, 90), a(10, 100)}}}},
+		{Kind: "live", Node: n, Number: 0, Stages: []Stage{
+			{How: "assign", Set: []Snap{a(1, 10)}}, {How: "inplace", Set: []Snap{a(2, 10)}},
+			{How: "inplace", Set: []Snap{a(2, 11)}}, {How: "append", Set: []Snap{a(2, 11), a(3, 12)}}}},
+	}
+}
+
 func main() {
 	c := vh.Start("C18")
 	c.Rep.Rule = "corpus (empty set, singletons, equal timestamps, span gap-1 / gap, uint64 top), then random sets of 1..64 snapshots " +
 		"with 1..4 distinct timestamps (so the hash tie-break decides), hashes with long common prefixes, repeated (timestamp, hash), " +
 		"version mixes 0..3, each supplied in 3..6 orders (identity, reverse, random) to both Go implementations. " +
-		"Non-trivial = at least two snapshots and no gap panic; distinct by (node, number, set)."
+		"Kind live: ONE long-lived kernel.CacheRound whose content is changed between asFinal calls (different set of the same size, " +
+		"one element overwritten in place, append through validateSnapshot, remove+add) and its Copy(), each compared with a fresh " +
+		"computation by both implementations. Non-trivial = at least two snapshots and no gap panic; distinct by (node, number, set)."
 	if c.Replay != "" {
 		var cs Case
 		c.ReplayCase(&cs)
@@ -291,6 +455,9 @@ func main() {
 	for _, cs := range corpus() {
 		run(c, cs)
 	}
+	for _, cs := range liveCorpus() {
+		run(c, cs)
+	}
 	n := c.Scale(2000, 60000)
 	m := c.Scale(500, 6000)
 	if c.Tier == "search" {
@@ -298,6 +465,9 @@ func main() {
 	}
 	for i := 0; i < n; i++ {
 		run(c, genSet(c, i < m))
+	}
+	for i := c.Scale(60, 3000); i > 0; i-- {
+		run(c, genLive(c))
 	}
 	c.Finish()
 }
